@@ -41,8 +41,9 @@ def bipartite_graph_from_coo_matrix(x):
     -------
     bg: BipartiteGraph instance
     """
-    i, j = x.nonzero()
-    edges = np.vstack((i, j)).T
+    # keep every stored entry (x.nonzero() drops stored zeros, x.data does not)
+    x = x.tocoo()
+    edges = np.vstack((x.row, x.col)).T
     weights = x.data
     wg = BipartiteGraph(x.shape[0], x.shape[1], edges, weights)
     return wg
